@@ -49,6 +49,7 @@ def run_property(pid, tier, only=None):
     errors = []
     for q in funcs:
         E = engine.Engine(REG)
+        E.pid = pid
         try:
             mod, node, cnode = frontend.find_def(q)
             t0 = time.time()
